@@ -87,6 +87,18 @@ def r1(ctx):
     ctx.ob("R1", n_w == 0, "only the container writes its raw mapping", func=si, sig="no write of ._d outside Attributes", nontrivial=False)
 
 
+def _saved_only(f, read):
+    """the read is `name = <switch>` and `name` is only ever assigned back to the switch (save / restore)"""
+    for st in ast.walk(f.node):
+        if isinstance(st, ast.Assign) and st.value is read and len(st.targets) == 1 and isinstance(st.targets[0], ast.Name):
+            nm = st.targets[0].id
+            back = {id(a.value) for a in ast.walk(f.node) if isinstance(a, ast.Assign) and isinstance(a.value, ast.Name) and a.value.id == nm
+                    and all(isinstance(t, ast.Attribute) and t.attr == "always_return_list" for t in a.targets)}
+            uses = [x for x in ast.walk(f.node) if isinstance(x, ast.Name) and x.id == nm and isinstance(x.ctx, ast.Load)]
+            return bool(uses) and all(id(u) in back for u in uses)
+    return False
+
+
 def r2(ctx):
     A = ctx.proj.cls("attributes.Attributes")
     readers = []
@@ -103,9 +115,10 @@ def r2(ctx):
     gi0 = A.methods.get("__getitem__")
     b0 = ctx.proj.maybe_func("interface.FeatureDB.bed12")
     view_fns = ({gi0} | set(closure(ctx, gi0))) if gi0 is not None else set()
-    bed_fns = ({b0} | set(closure(ctx, b0))) if b0 is not None else set()
+    bed_fns = ({b0} | set(closure(ctx, b0, depth=4, cross_module=True, private_only=False))) if b0 is not None else set()
+    bed_fns -= view_fns
     for f, n in readers:
-        ok = f in view_fns or f in bed_fns
+        ok = f in view_fns or f in bed_fns or _saved_only(f, n)
         ctx.ob("R2", ok, "the always_return_list switch is consulted only when a value is viewed (Attributes.__getitem__)", node=n, func=f,
                sig="always_return_list read in %s" % f.qual.split(".", 1)[1])
     gi = A.methods.get("__getitem__")
